@@ -1,7 +1,7 @@
 """C14 — time allocation never exceeds what the clock allows: limit clauses C14-CAP, C14-EXACT, C14-USE,
 C14-WIRE (DESIGN.md §3). The wall-clock clause is not decided (timing)."""
 from facts import (norm, show, walk, strip_refs, deep_strip, is_call_to, callee_name, find_calls, guard_conditions,
-                   cmp_op, const_str, substitute_args)
+                   cmp_op, const_str, substitute_args, decision_paths)
 import pC05
 
 EXPLANATION = (
@@ -25,6 +25,157 @@ def run(fx, rep, tier):
     rule_exact(fx, rep, new, info)
     rule_use(fx, rep)
     rule_wire(fx, rep, new, info)
+    rule_select(fx, rep)
+
+
+GO_FIELDS = ("wtime", "btime", "winc", "binc", "movestogo", "movetime")
+
+
+def presence_of(e, val, fx=None):
+    """constraint on the six optional `go` arguments expressed by the branch condition (e == val):
+    ('lit', field, present) | ('any', (fields..), truth) | ('const', truth); None if it is about something else"""
+    d = deep_strip(e)
+    if not isinstance(d, tuple) or not d:
+        return None
+    truth = None
+    if isinstance(val, int):
+        truth = val
+    elif isinstance(val, tuple) and val[0] == "otherwise":
+        truth = 1 if val[1] == (0,) else (0 if val[1] == (1,) else None)
+    if truth is None:
+        return None
+    if d[0] == "const" and isinstance(d[1], (int, bool)):
+        return ("const", int(d[1]) == truth)
+
+    def go_field(x):
+        x = deep_strip(x)
+        if isinstance(x, tuple) and len(x) == 3 and x[0] == "field" and x[2] in GO_FIELDS:
+            return x[2]
+        return None
+    if d[0] == "discr" and go_field(d[1]):
+        return ("lit", go_field(d[1]), bool(truth))      # Option: None = 0, Some = 1
+    if d[0] == "call" and isinstance(d[1], str) and d[1].endswith("Option::is_some") and go_field(d[2][0]):
+        return ("lit", go_field(d[2][0]), bool(truth))
+    if d[0] == "is_some" and go_field(d[1]):
+        return ("lit", go_field(d[1]), bool(truth))
+    if d[0] == "call" and isinstance(d[1], str) and d[1].endswith("Option::is_none") and go_field(d[2][0]):
+        return ("lit", go_field(d[2][0]), not bool(truth))
+    # [a, b, ..].iter().any(|t| t.is_some())
+    if d[0] == "call" and isinstance(d[1], str) and d[1].endswith("::any") and fx is not None and len(d[2]) == 2:
+        arrs = [x for x in walk(d[2][0]) if isinstance(x, tuple) and x and x[0] == "agg" and x[1] == "array"]
+        clos = [x for x in walk(d[2][1]) if isinstance(x, tuple) and x and x[0] == "agg" and str(x[1]).startswith("closure:")]
+        cb = fx.bodies.get(clos[0][1][len("closure:"):]) if clos else None
+        if len(arrs) == 1 and cb is not None:
+            flds = [go_field(x) for x in arrs[0][2]]
+            cc = [norm(callee_name(t) or "") for _, t in cb.calls()]
+            if all(flds) and len(cc) == 1 and cc[0].endswith("Option::is_some"):
+                return ("any", tuple(flds), bool(truth))
+    return None
+
+
+def holds(con, c):
+    if con[0] == "const":
+        return con[1]
+    if con[0] == "lit":
+        return c[con[1]] == con[2]
+    if con[0] == "any":
+        return any(c[f] for f in con[1]) == con[2]
+    return False
+
+
+def rule_select(fx, rep):
+    """Which time control a `go` command gets: with a clock for either side (wtime / btime) it is Clocks; with a move time and
+    no clock it is ExactTime - "a fixed move time is used as given". Decided by enumerating the paths of the go handler from
+    the arm's entry to the TimeStrategy::new call (and through a selection helper, if any) together with the presence
+    conditions they test, and checking every completion of the six optional arguments."""
+    import itertools
+    ex = fx.one("uci::Uci::execute")
+    arms = pC05.arm_regions(fx, ex)
+    entry, region = arms["Go"]
+    stops = {bb for bb, t in ex.calls_to("TimeStrategy::new") if bb in region}
+    if len(stops) != 1:
+        rep.notes.append("C14-SELECT: the go handler does not call TimeStrategy::new exactly once; clause not decided")
+        rep.rule("C14-SELECT", 0, 0, True, "not decided")
+        return
+    sbb = next(iter(stops))
+    paths = decision_paths(ex, 3000, start=entry, stop=stops)
+    if not paths or len(paths) >= 3000:
+        rep.notes.append("C14-SELECT: too many / no paths from the go arm to TimeStrategy::new; clause not decided")
+        rep.rule("C14-SELECT", 0, 0, True, "not decided")
+        return
+    outcomes = []  # (constraints, variant)
+    undecided = False
+    for conds, (env, ev), bb in paths:
+        cons = []
+        for (e, val) in conds:
+            pr = presence_of(e, val, fx)
+            if pr is None:
+                undecided = True
+                break
+            cons.append(pr)
+        if undecided:
+            break
+        tc = deep_strip(ev(ex.blocks[sbb]["term"]["args"][1]))
+        if isinstance(tc, tuple) and tc[0] == "agg" and "TimeControl::" in str(tc[1]):
+            outcomes.append((cons, str(tc[1]).split("::")[-1]))
+            continue
+        if isinstance(tc, tuple) and tc[0] == "call" and isinstance(tc[1], str) and fx.body(tc[1]) is not None and fx.body(tc[1]).n <= 60:
+            hb = fx.body(tc[1])
+            for hconds, hret, hl in decision_paths(hb, 256):
+                if hret is None:
+                    continue
+                c2 = list(cons)
+                for (e, val) in hconds:
+                    pr = presence_of(substitute_args(e, tc[2]), val, fx)
+                    if pr is None:
+                        undecided = True
+                        break
+                    c2.append(pr)
+                if undecided:
+                    break
+                r = deep_strip(hret)
+                if isinstance(r, tuple) and r[0] == "agg" and "TimeControl::" in str(r[1]):
+                    outcomes.append((c2, str(r[1]).split("::")[-1]))
+                else:
+                    undecided = True
+            if undecided:
+                break
+            continue
+        undecided = True
+        break
+    if undecided or not outcomes:
+        rep.notes.append("C14-SELECT: the selection of the time control tests something other than the presence of go arguments (or is in a form not modelled); clause not decided")
+        rep.rule("C14-SELECT", 0, 0, True, "not decided")
+        return
+    ok = True
+    n = 0
+    seen_bad = set()
+    covered = 0
+    for combo in itertools.product([False, True], repeat=len(GO_FIELDS)):
+        c = dict(zip(GO_FIELDS, combo))
+        variants = {v for cons, v in outcomes if all(holds(k, c) for k in cons)}
+        if len(variants) != 1:
+            # the modelled paths do not partition this input (should not happen for a deterministic handler): not decided
+            continue
+        covered += 1
+        variant = next(iter(variants))
+        want = "Clocks" if (c["wtime"] or c["btime"]) else ("ExactTime" if c["movetime"] else None)
+        if want is None:
+            continue
+        n += 1
+        good = variant == want
+        rep.obligation(good)
+        if not good and (variant, want) not in seen_bad:
+            seen_bad.add((variant, want))
+            ok = False
+            given = [f for f in GO_FIELDS if c[f]]
+            rep.violation("C14-SELECT", f"C14-SELECT/{want}-as-{variant}", f"`go` with {given} is searched under TimeControl::{variant}; expected {want} "
+                          + ("(a fixed move time must be used as given)" if want == "ExactTime" else "(a clock for either side must be honoured)"),
+                          {"fn": ex.name, "file": ex.file, "line": ex.blocks[sbb]["term"].get("line")})
+    if covered < 64:
+        rep.notes.append(f"C14-SELECT: only {covered} of 64 argument combinations map to a unique modelled path")
+    rep.sample({"rule": "C14-SELECT", "paths": len(paths), "outcomes": [([str(k) for k in p], v2) for p, v2 in outcomes][:8]})
+    rep.rule("C14-SELECT", n, 40, ok, "time control selected from the presence of go arguments (all completions)")
 
 
 def arm_of(fx, body, bb, argidx, adt):
@@ -460,6 +611,11 @@ S = "src/engine/search/mod.rs"
 U = "src/engine/uci/mod.rs"
 P = "src/engine/uci/parser.rs"
 MUTANTS = [
+    {"name": "increments or movestogo alone select the clock search over movetime (seed C14-3)", "expect": "C14-SELECT/ExactTime-as-Clocks",
+     "edits": [("src/engine/uci/mod.rs", "                if wtime.is_some() || btime.is_some() {\n                    time_control = TimeControl::Clocks(clocks);", "                if wtime.is_some() || btime.is_some() || winc.is_some() || binc.is_some() || movestogo.is_some() {\n                    time_control = TimeControl::Clocks(clocks);")]},
+    {"name": "movetime beats the clocks", "expect": "C14-SELECT/Clocks-as-ExactTime",
+     "edits": [("src/engine/uci/mod.rs", "                if let Some(move_time) = movetime {\n                    time_control = TimeControl::ExactTime(*move_time);\n                }\n\n                if wtime.is_some() || btime.is_some() {\n                    time_control = TimeControl::Clocks(clocks);\n                }",
+                "                if wtime.is_some() || btime.is_some() {\n                    time_control = TimeControl::Clocks(clocks);\n                }\n\n                if let Some(move_time) = movetime {\n                    time_control = TimeControl::ExactTime(*move_time);\n                }")]},
     {"name": "MAX_TIME_PER_MOVE = 0.6", "expect": "C14-CAP/cap/fraction",
      "edits": [(S, "pub const MAX_TIME_PER_MOVE: f32 = 0.5;", "pub const MAX_TIME_PER_MOVE: f32 = 0.6;")]},
     {"name": "hard stop not capped", "expect": "C14-CAP/hard_stop/shape",
